@@ -111,7 +111,49 @@ def run_property(prop_id: str, tier: str, seed: int, repo_root: str = "/repo",
     if hasattr(mod, "extra_checks"):
         extra = mod.extra_checks(tier, seed, repo_root) or []
         reports.extend(extra)
-    return finish(prop_id, tier, seed, mod, plan, reports, t0, relock, repo_root)
+    controls = None
+    if tier == "thorough" and not os.environ.get("PYVC_NO_EVIDENCE") and getattr(mod, "CONTROLS", None):
+        controls = run_controls(prop_id, mod.CONTROLS, repo_root)
+        plan["controls"] = controls
+    rc = finish(prop_id, tier, seed, mod, plan, reports, t0, relock, repo_root)
+    if controls and rc == 0 and any(c["verdict"] == "passed" for c in controls):
+        missed = [c["name"] for c in controls if c["verdict"] == "passed"]
+        print(f"CHECKER-CRASH: negative control(s) not detected: {missed}", file=sys.stderr)
+        return 3
+    return rc
+
+
+def run_controls(prop_id, controls, repo_root):
+    """Negative controls (thorough tier): each is a small source mutation that breaks the property;
+    it is applied to a scratch copy outside /repo and /verif and the quick check must NOT pass on it
+    (exit 1 = detected, exit 2 = undecided is tolerated and reported, exit 0 = the check is blind)."""
+    import shutil
+    import tempfile
+    out = []
+    for (name, rel, old, new) in controls:
+        tmp = tempfile.mkdtemp(prefix="pyvc_ctl_")
+        try:
+            for d in ("emu_base", "emu_mps", "emu_sv"):
+                shutil.copytree(os.path.join(repo_root, d), os.path.join(tmp, d),
+                                ignore=shutil.ignore_patterns("__pycache__"))
+            for f in ("pyproject.toml",):
+                if os.path.exists(os.path.join(repo_root, f)):
+                    shutil.copy(os.path.join(repo_root, f), tmp)
+            path = os.path.join(tmp, rel)
+            src = open(path).read()
+            if old not in src:
+                out.append({"name": name, "verdict": "not-applicable", "detail": "text to mutate not found"})
+                continue
+            open(path, "w").write(src.replace(old, new, 1))
+            p = subprocess.run([sys.executable, "-m", "pyvc.runner", prop_id, "--tier", "quick", "--repo", tmp],
+                               capture_output=True, text=True, cwd=VERIF,
+                               env=dict(os.environ, PYVC_NO_EVIDENCE="1", PYTHONPATH=VERIF))
+            verdict = {0: "passed", 1: "detected", 2: "undecided"}.get(p.returncode, f"exit {p.returncode}")
+            failed = [l.strip() for l in p.stdout.splitlines() if "failed obligation" in l][:3]
+            out.append({"name": name, "file": rel, "verdict": verdict, "failed_obligations": failed})
+        finally:
+            shutil.rmtree(tmp, ignore_errors=True)
+    return out
 
 
 def finish(prop_id, tier, seed, mod, plan, reports, t0, relock, repo_root):
@@ -281,9 +323,12 @@ def finish(prop_id, tier, seed, mod, plan, reports, t0, relock, repo_root):
     ev = {"property_id": prop_id, "tier": tier, "seed": seed, "level": level, "coverage": cov,
           "assumptions": assumptions + plan.get("assumptions", []),
           "wall_s": round(time.time() - t0, 2), "violations": len(violations)}
-    os.makedirs(os.path.join(VERIF, "evidence"), exist_ok=True)
-    with open(os.path.join(VERIF, "evidence", f"{prop_id}.json"), "w") as f:
-        json.dump(ev, f, indent=1, default=str)
+    if plan.get("controls") is not None:
+        cov["negative_controls"] = plan["controls"]
+    if not os.environ.get("PYVC_NO_EVIDENCE"):
+        os.makedirs(os.path.join(VERIF, "evidence"), exist_ok=True)
+        with open(os.path.join(VERIF, "evidence", f"{prop_id}.json"), "w") as f:
+            json.dump(ev, f, indent=1, default=str)
 
     for fid, n in sorted(known_hit.items()):
         k = known_defs.get(fid, {})
